@@ -197,6 +197,10 @@ def corpus():
         # below a list
         out.append(gram.Spec([C("A0", True, None), C("Leaf", False, 0, []), C("Sel", True, None), C("Pick", False, 2, failing),
                               C("Many", False, 0, [("xs", ("ann", ("list", ("cls", 2)), ("listSize", 1, 2)))])], 0, [4, 1, 3, 2]))
+    # an abstract symbol WITHOUT productions (an unimplemented extension point) used as a field type: operations that
+    # meet it fail, and must leave the grammar as it was
+    out.append(gram.Spec([C("A0", True, None), C("Leaf", False, 0, [("k", ("ann", "int", ("intRange", 0, 3)))]), C("Plugin", True, None),
+                          C("Ext", False, 0, [("p", ("cls", 2))]), C("Neg", False, 0, [("e", ("cls", 0))])], 0, [1, 3, 4, 2]))
     return out
 
 
@@ -204,9 +208,9 @@ def run(h: Harness):
     rng = h.rng
     retry_model(h)
     for spec in corpus():
-        for _ in range(2):
+        for _ in range(3):
             history(h, spec, rng)
-        h.count("corpus-histories", 2)
+        h.count("corpus-histories", 3)
     for _ in range(h.n(60, 900)):
         spec = backtracking_spec(rng) if rng.random() < 0.6 else gram.productive_spec(rng, max_classes=rng.choice([3, 4, 6]))
         history(h, spec, rng)
